@@ -406,6 +406,8 @@ func requireFuncs(w *World, r *Report, names ...string) (map[string]*ssa.Functio
 	ReportStateless(w, r, live...)
 	ReportIdxWidth(w, r, names...)
 	ReportWordWidth(w, r, names...)
+	ReportPanicSites(w, r, names...)
+	ReportAllocWrap(w, r, names...)
 	seenPkg := map[string]bool{}
 	var shorts []string
 	for _, n := range names {
